@@ -58,6 +58,9 @@ def gen_config(rng):
     if not cfg["faults"]:
         w["fault"] = 0
     cfg["weights"] = w
+    if rng.random() < 0.1:
+        # the model was built in another dimension and brought to this one in place
+        cfg["model_route"] = {"from_dim": rng.choice([d for d in (1, 2, 3) if d != dim])}
     return cfg
 
 
